@@ -318,6 +318,35 @@ def h_chain_flow(eng, ff, pka, ligand):
         eng.check(core.Iff(flag, o["keep_chain"]), "chain-column-follows-keep-chain", note=f"{name} called with chainflag={flag} while --keep-chain is {o['keep_chain']} (options: clean={o['clean']}, assign_only={o['assign_only']})")
 
 
+def h_layout_flow(eng, ff):
+    """whatever other options are given (--apbs-input, --pdb-output, --ffout, --include-header, ...), the layout of the PQR
+    file follows --whitespace and nothing else: the real print_pqr is called with args.whitespace as requested (round 7:
+    --apbs-input switched the whitespace layout on, so the default-layout file could not be read by its columns)"""
+    from pdb2pqr import main
+
+    from . import flow
+
+    o = flow.symbolic_options(eng, fixed=dict(ff=ff, pka=0, ligand=0))
+    eng.assume(And(o["ph"] >= 0, o["ph"] <= 14))
+    asked = o["whitespace"]
+    w = flow.World(eng, "1", False, {}, [])
+    seen = []
+    real = main.print_pqr
+
+    def spy(args, *a, **k):
+        seen.append(args.whitespace)
+        return real(args, *a, **k)
+
+    with patched((main, "print_pqr", spy)):
+        err = flow.run_driver(w, o)
+    if err is not None:
+        eng.check(True, "loud-failure-tolerated", note=type(err).__name__)
+        return
+    eng.check(len(seen) == 1, "pqr-written-once", note=f"print_pqr called {len(seen)} times")
+    for flag in seen:
+        eng.check(core.Iff(flag, asked), "layout-follows-whitespace-option", note=f"print_pqr ran with whitespace={flag} while --whitespace is {asked} (apbs_input={o['apbs_input']}, pdb_output={o['pdb_output']}, ffout={o['ffout']})")
+
+
 def obligations(tier):
     obs = []
     foci = FOCI_QUICK if tier == "quick" else FOCI_THOROUGH
@@ -339,6 +368,8 @@ def obligations(tier):
                 obs.append(Obligation(f"atom-list-n{n}-{'ws' if ws else 'fixed'}-{'kc' if kc else 'nokc'}", h_atom_list, dict(n=n, ws=ws, kc=kc), group="atom-list", time_cap=1200))
     for ff, pka, lig in ((0, 0, 0),) if tier == "quick" else ((0, 0, 0), (1, 1, 0), (2, 0, 1)):
         obs.append(Obligation(f"chain-flow-ff{ff}-pka{pka}-lig{lig}", h_chain_flow, dict(ff=ff, pka=pka, ligand=lig), group="flow", time_cap=1500, max_paths=200000))
+    for ff in (0, 1):
+        obs.append(Obligation(f"layout-flow-ff{ff}", h_layout_flow, dict(ff=ff), group="flow", time_cap=1500, max_paths=200000))
     return obs
 
 
